@@ -357,3 +357,66 @@ class MaskConsistent:
 register(Obligation(name="C08.get_xc.screening_mask_total_density", prop=PROP, engine="Z", functions=["eminus.xc.utils:get_xc"], run=MaskConsistent(),
                     assumes=("engineZ", "z3"), doc="the density screening mask of get_xc depends on the total density only (same on the spin-paired and the "
                                                    "spin-polarised path, spin-exchange symmetric) for every dens_threshold"))
+
+
+class ClosedShellScf:
+    """BOUNDED native: a closed-shell state through the spin-polarised code path (identical orbitals in both channels) has the same energy
+    contributions as the spin-paired path and half the gradient per channel (LDA, GGA; GTH with projectors; two weighted k-points)."""
+
+    def case(self, xc, seed):
+        import dataclasses
+
+        import eminus
+        from eminus import SCF, Atoms
+        from eminus.dft import get_grad, guess_random
+        from eminus.energies import get_E
+
+        eminus.config.backend = "numpy"
+        eminus.config.verbose = "critical"
+        out = {}
+        W1 = None
+        for unres in (False, True):
+            at = Atoms(["Li", "H"], [[0.2, 0.1, 0.3], [0.4, 0.2, 3.1]], ecut=4, a=[[6.0, 0.3, 0.1], [0.2, 6.5, 0.4], [0.5, 0.1, 7.0]], unrestricted=unres)
+            at.s = [11, 11, 13]
+            at.set_k([[0.0, 0.0, 0.0], [0.2, 0.1, 0.05]], [0.4, 0.6])
+            scf = SCF(at, xc=xc, verbose="critical")
+            at = scf.atoms
+            if W1 is None:
+                W1 = [np.asarray(w) for w in guess_random(scf, seed=seed + 3)]
+                scf.W = [w.copy() for w in W1]
+            else:
+                scf.W = [np.concatenate([w, w], axis=0) for w in W1]
+            scf._precompute()
+            get_E(scf)
+            e = {f.name: float(getattr(scf.energies, f.name)) for f in dataclasses.fields(scf.energies)}
+            g = [[np.asarray(get_grad(scf, ik, s, scf.W, **scf._precomputed)) for s in range(at.occ.Nspin)] for ik in range(at.kpts.Nk)]
+            out[unres] = (e, g)
+        de = {k: abs(out[False][0][k] - out[True][0][k]) for k in out[False][0]}
+        dg = 0.0
+        for ik in range(2):
+            ref = out[False][1][ik][0]
+            for s in range(2):
+                dg = max(dg, float(np.abs(out[True][1][ik][s] - 0.5 * ref).max() / max(1e-12, np.abs(ref).max())))
+            dg = max(dg, float(np.abs(out[True][1][ik][0] - out[True][1][ik][1]).max() / max(1e-12, np.abs(ref).max())))
+        return max(max(de.values()), dg), dict(xc=xc, energy_diffs=de, gradient_rel_diff=dg)
+
+    def __call__(self, ob, tier, seed):
+        from pycv.framework import BOUNDED_OK
+
+        worst = 0.0
+        for xc in ("lda,vwn", "pbe", "lda,chachiyo", "pbesol"):
+            w, info = self.case(xc, seed)
+            worst = max(worst, w)
+            if w > 1e-9:
+                return Result(REFUTED, backend="native", witness=dict(xc=xc, seed=seed), replayed=True, replay_info=info,
+                              detail=f"closed-shell state, xc={xc}: spin-polarised path differs from the spin-paired path (energies {info['energy_diffs']}, gradient {info['gradient_rel_diff']:.2e})")
+        return Result(BOUNDED_OK, backend="native", detail=f"bounded: LiH, two weighted k-points, four functionals: energies equal and gradient halved to {worst:.1e}")
+
+    def replay(self, wit):
+        w, info = self.case(wit["xc"], wit["seed"])
+        return bool(w > 1e-9), info
+
+
+register(Obligation(name="C08.scf.closed_shell_polarised_path", prop=PROP, engine="B", bounded=True, run=ClosedShellScf(), budget={"quick": 300, "thorough": 600},
+                    functions=["eminus.energies:get_E", "eminus.dft:get_grad", "eminus.dft:get_n_spin", "eminus.xc.utils:get_xc"],
+                    doc="BOUNDED: closed-shell orbitals through the spin-polarised path: same energy contributions, half the gradient per channel"))
